@@ -274,7 +274,9 @@ def check_c11_variant(chk, sref, root, std, compiler, variant):
         else:
             stray.append((0, b["msg"]))
     if stray:
+        # the TU is not the one that was meant to be judged (missing header, unrelated error): no line is decided
         chk.broke("negative witness TU of %s has errors outside mutator lines: %s" % (sref.name, stray[:3]))
+        return 0
     n = 0
     for ln, what in sorted(tags.items()):
         n += 1
